@@ -669,34 +669,24 @@ theorem pyBindCore_cons (s' : Sig N V T) (r : Param N V T) (a : V) (args' : List
         simp only [Option.map_some]
         split <;> simp
 
-/-- **class contexts.**  When the decorated object reserves its first parameter (instance method, `classmethod`,
-method of a class decorated as a whole), a call that passes `self`/`cls` first behaves as the function without that
-parameter: same ParseError / same binding, with the first argument handed through untouched. -/
-theorem C08_method_binding (W : World N V T) (hW : LowerIdem W) (c : Ctx) (full : Sig N V T) (r : Param N V T)
+/-- the reserved-first-parameter step, for whichever way the first argument was found (`first`, the remaining
+positional arguments `args1` and keywords `kw1`) -/
+theorem reserved_core (W : World N V T) (hW : LowerIdem W) (full : Sig N V T) (r : Param N V T)
     (ps : List (Param N V T)) (o : Opts) (self : V) (args : List V) (kw : List (N × V)) (out : Outcome N V)
-    (hres : firstReserve c full = true) (hpos : full.pos = r :: ps)
+    (hpos : full.pos = r :: ps)
     (wf : WF W { full with pos := ps })
     (hr : ∀ p ∈ Spec.kwParams { full with pos := ps }, p.name ≠ r.name)
     (hrk : r.name ∉ kw.map (·.1))
     (hk : KnownDefect.privateKw W { full with pos := ps } kw = false)
     (ha : KnownDefect.privateAnnotated W { full with pos := ps } = false)
     (hexp : Spec.expected W { full with pos := ps } args kw = some out) :
-    callDecl W c full o (self :: args) kw = consFirst self out := by
+    (match parseParams W { full with pos := ps } o args kw with
+      | .error _ => Outcome.perr
+      | .ok (args', kw') => rawCall full (self :: args', kw')) = consFirst self out := by
   obtain ⟨s', hs'⟩ : ∃ s' : Sig N V T, s' = { full with pos := ps } := ⟨_, rfl⟩
   have hfull : full = { s' with pos := r :: s'.pos } := by
     rw [hs']; cases full; simp at hpos; simp [hpos]
-  rw [← hs'] at wf hr hk ha hexp
-  have hcd : callDecl W c full o (self :: args) kw =
-      match parseParams W s' o args kw with
-      | .error _ => .perr
-      | .ok (args', kw') =>
-        match pyBindCore full (self :: args') kw' with
-        | none => .tyerr
-        | some b => .body b := by
-    unfold callDecl
-    rw [hres, hpos, hs']
-    rfl
-  rw [hcd]
+  rw [← hs'] at wf hr hk ha hexp ⊢
   unfold Spec.expected at hexp
   simp only at hexp
   cases hpb : Spec.pyBind s' args (Spec.normalise W s' kw) with
@@ -724,7 +714,7 @@ theorem C08_method_binding (W : World N V T) (hW : LowerIdem W) (c : Ctx) (full 
       | some ck =>
         simp only [hca, hck] at hcore hexp
         obtain ⟨args', kw', hpp, hfin, hext⟩ := hcore
-        simp only [hpp]
+        simp only [hpp, rawCall]
         -- `self`'s name is not a key of what parse_params hands over
         have hnt : s'.kwTarget r.name = false := by
           cases ht : s'.kwTarget r.name with
@@ -759,17 +749,199 @@ theorem C08_method_binding (W : World N V T) (hW : LowerIdem W) (c : Ctx) (full 
           subst hexp
           simp [consFirst]
 
+/-- what `get_params` + the raw call do once the first argument is known -/
+theorem callDecl_reserved (W : World N V T) (c : Ctx) (full : Sig N V T) (r : Param N V T) (ps : List (Param N V T))
+    (o : Opts) (args : List V) (kw : List (N × V))
+    (hres : firstReserve c full = true) (hpos : full.pos = r :: ps) :
+    callDecl W c full o args kw =
+      match (match args with
+        | a :: as => (a, as, kw)
+        | [] => match kw.lookup r.name with
+          | some v => (v, [], kw.filter (fun e => e.1 != r.name))
+          | none => (W.noneV, [], kw)) with
+      | (first, args1, kw1) =>
+        match parseParams W { full with pos := ps } o args1 kw1 with
+        | .error _ => .perr
+        | .ok (args', kw') =>
+          if c.fromClass && !W.isInst first then .perr
+          else rawCall full (first :: args', kw') := by
+  unfold callDecl getParams
+  rw [hres, hpos]
+  simp only
+  cases args with
+  | cons a as =>
+    simp only
+    cases parseParams W { full with pos := ps } o as kw with
+    | error e => rfl
+    | ok ak =>
+      obtain ⟨a', k'⟩ := ak
+      by_cases hchk : (c.fromClass && !W.isInst a) = true <;> simp [hchk]
+  | nil =>
+    simp only
+    cases kw.lookup r.name with
+    | some v =>
+      simp only
+      cases parseParams W { full with pos := ps } o [] (kw.filter (fun e => e.1 != r.name)) with
+      | error e => rfl
+      | ok ak =>
+        obtain ⟨a', k'⟩ := ak
+        by_cases hchk : (c.fromClass && !W.isInst v) = true <;> simp [hchk]
+    | none =>
+      simp only
+      cases parseParams W { full with pos := ps } o [] kw with
+      | error e => rfl
+      | ok ak =>
+        obtain ⟨a', k'⟩ := ak
+        by_cases hchk : (c.fromClass && !W.isInst W.noneV) = true <;> simp [hchk]
+
+/-- **class contexts.**  When the decorated object reserves its first parameter (instance method, `classmethod`,
+method of a class decorated as a whole), a call that passes `self`/`cls` first — an instance of the class, where the
+class was decorated as a whole — behaves as the function without that parameter: same ParseError / same binding,
+with the first argument handed through untouched. -/
+theorem C08_method_binding (W : World N V T) (hW : LowerIdem W) (c : Ctx) (full : Sig N V T) (r : Param N V T)
+    (ps : List (Param N V T)) (o : Opts) (self : V) (args : List V) (kw : List (N × V)) (out : Outcome N V)
+    (hres : firstReserve c full = true) (hpos : full.pos = r :: ps)
+    (hinst : c.fromClass = true → W.isInst self = true)
+    (wf : WF W { full with pos := ps })
+    (hr : ∀ p ∈ Spec.kwParams { full with pos := ps }, p.name ≠ r.name)
+    (hrk : r.name ∉ kw.map (·.1))
+    (hk : KnownDefect.privateKw W { full with pos := ps } kw = false)
+    (ha : KnownDefect.privateAnnotated W { full with pos := ps } = false)
+    (hexp : Spec.expected W { full with pos := ps } args kw = some out) :
+    callDecl W c full o (self :: args) kw = consFirst self out := by
+  rw [callDecl_reserved W c full r ps o (self :: args) kw hres hpos]
+  have hchk : (c.fromClass && !W.isInst self) = false := by
+    cases hc : c.fromClass with
+    | false => rfl
+    | true => simp [hinst hc]
+  simp only [hchk, Bool.false_eq_true, if_false]
+  exact reserved_core W hW full r ps o self args kw out hpos wf hr hrk hk ha hexp
+
+/-- **`self` by keyword** (fix C08-reserve-kw): with no positional argument, the reserved first parameter passed under
+its own name is bound the same way — the call behaves as the function without that parameter on the remaining
+keywords -/
+theorem C08_method_binding_self_kw (W : World N V T) (hW : LowerIdem W) (c : Ctx) (full : Sig N V T)
+    (r : Param N V T) (ps : List (Param N V T)) (o : Opts) (self : V) (kw : List (N × V)) (out : Outcome N V)
+    (hres : firstReserve c full = true) (hpos : full.pos = r :: ps)
+    (hself : kw.lookup r.name = some self)
+    (hinst : c.fromClass = true → W.isInst self = true)
+    (wf : WF W { full with pos := ps })
+    (hr : ∀ p ∈ Spec.kwParams { full with pos := ps }, p.name ≠ r.name)
+    (hk : KnownDefect.privateKw W { full with pos := ps } (kw.filter (fun e => e.1 != r.name)) = false)
+    (ha : KnownDefect.privateAnnotated W { full with pos := ps } = false)
+    (hexp : Spec.expected W { full with pos := ps } [] (kw.filter (fun e => e.1 != r.name)) = some out) :
+    callDecl W c full o [] kw = consFirst self out := by
+  rw [callDecl_reserved W c full r ps o [] kw hres hpos]
+  simp only [hself]
+  have hchk : (c.fromClass && !W.isInst self) = false := by
+    cases hc : c.fromClass with
+    | false => rfl
+    | true => simp [hinst hc]
+  simp only [hchk, Bool.false_eq_true, if_false]
+  refine reserved_core W hW full r ps o self [] _ out hpos wf hr ?_ hk ha hexp
+  intro hmem
+  obtain ⟨e, he, hn⟩ := List.mem_map.mp hmem
+  have := (List.mem_filter.mp he).2
+  simp [hn] at this
+
+/-- **a first argument that is not an instance** of the class decorated as a whole is refused with a ParseError
+(InvalidInstance / InvalidSubclass) before the function is called, whenever the other parameters parse -/
+theorem C08_method_invalid_instance (W : World N V T) (c : Ctx) (full : Sig N V T) (r : Param N V T)
+    (ps : List (Param N V T)) (o : Opts) (first : V) (args : List V) (kw : List (N × V))
+    (hres : firstReserve c full = true) (hpos : full.pos = r :: ps)
+    (hfc : c.fromClass = true) (hinst : W.isInst first = false) :
+    callDecl W c full o (first :: args) kw = .perr := by
+  rw [callDecl_reserved W c full r ps o (first :: args) kw hres hpos]
+  simp only [hfc, hinst, Bool.not_false, Bool.and_self, if_true]
+  cases parseParams W { full with pos := ps } o args kw with
+  | error e => rfl
+  | ok ak => rfl
+
+/-- **static contexts**: a `staticmethod` object reserves nothing — the call is the plain function's, to which
+`C08_binding_partial` applies as it stands -/
+theorem C08_static_binding (W : World N V T) (c : Ctx) (full : Sig N V T) (o : Opts) (args : List V)
+    (kw : List (N × V)) (hs : c.isStatic = true) (hc : c.isClassm = false) :
+    callDecl W c full o args kw = call W full o args kw := by
+  have : firstReserve c full = false := by unfold firstReserve; simp [hs, hc]
+  unfold callDecl getParams call rawCall
+  rw [this]
+  cases parseParams W full o args kw with
+  | error e => rfl
+  | ok ak => rfl
+
 /-! ### the result -/
 
-/-- **the returned value**: what the caller gets is the body's result converted to the return annotation, and a
-result that does not convert is a ParseError (func.py:703-712); without annotation the result is handed through -/
-theorem C08_result_conforms (W : World N V T) (ret : Option T) (r : V) :
+theorem parseResult_eq (W : World N V T) (ret : Option T) (r : V) :
     parseResult W ret r = match Spec.convO W ret r with
       | some v => .ok v
       | none => .perr := by
   unfold parseResult
   rw [convBy_eq]
   cases Spec.convO W ret r <;> rfl
+
+theorem finish_eq_result (W : World N V T) (ret : Option T) (body : Binding N V → V) (out : Outcome N V) :
+    finish W ret body out = Spec.result W ret body out := by
+  cases out with
+  | body b =>
+    simp only [finish, Spec.result, parseResult_eq]
+    cases Spec.convO W ret (body b) <;> rfl
+  | perr => rfl
+  | tyerr => rfl
+
+/-- **the returned value** (synchronous call).  For every body (any function of the binding it receives) and every
+return annotation: when Python binds the call, the caller of the decorated function gets the result of the body —
+run on Python's binding of the converted call — converted to the return annotation; a result that does not convert
+is a ParseError (the body has run); a parameter that does not convert is a ParseError without the body.  Same
+hypotheses as `C08_binding_partial`. -/
+theorem C08_call_result (W : World N V T) (hW : LowerIdem W) (s : Sig N V T) (wf : WF W s) (o : Opts)
+    (ret : Option T) (body : Binding N V → V) (args : List V) (kw : List (N × V)) (out : Outcome N V)
+    (hk : KnownDefect.privateKw W s kw = false) (ha : KnownDefect.privateAnnotated W s = false)
+    (hexp : Spec.expected W s args kw = some out) :
+    finish W ret body (call W s o args kw) = Spec.result W ret body out := by
+  rw [C08_binding_partial W hW s wf o args kw out hk ha hexp, finish_eq_result]
+
+/-- … for a method (reserved first parameter passed positionally) -/
+theorem C08_method_result (W : World N V T) (hW : LowerIdem W) (c : Ctx) (full : Sig N V T) (r : Param N V T)
+    (ps : List (Param N V T)) (o : Opts) (ret : Option T) (body : Binding N V → V) (self : V) (args : List V)
+    (kw : List (N × V)) (out : Outcome N V)
+    (hres : firstReserve c full = true) (hpos : full.pos = r :: ps)
+    (hinst : c.fromClass = true → W.isInst self = true)
+    (wf : WF W { full with pos := ps })
+    (hr : ∀ p ∈ Spec.kwParams { full with pos := ps }, p.name ≠ r.name)
+    (hrk : r.name ∉ kw.map (·.1))
+    (hk : KnownDefect.privateKw W { full with pos := ps } kw = false)
+    (ha : KnownDefect.privateAnnotated W { full with pos := ps } = false)
+    (hexp : Spec.expected W { full with pos := ps } args kw = some out) :
+    callR W c full o ret body (self :: args) kw = Spec.result W ret body (consFirst self out) := by
+  unfold callR
+  rw [C08_method_binding W hW c full r ps o self args kw out hres hpos hinst wf hr hrk hk ha hexp, finish_eq_result]
+
+/-- what awaiting the object returned by a decorated coroutine function gives (an exception at call time counts) -/
+def CoroRet.result : CoroRet N V → Ret N V
+  | .raisedAtCall => .perr
+  | .awaited r => r
+
+/-- **coroutines.**  A decorated coroutine function — eager or not — gives, once awaited, exactly what the
+synchronous call of the same declaration gives (binding, converted result, errors), so every binding / result theorem
+carries over; the lazy wrapper raises nothing before the await, the eager one raises at call time exactly the
+ParseErrors of the parameters (`get_params`), never the raw call's TypeError or the result's ParseError. -/
+theorem C08_coroutine_result (W : World N V T) (c : Ctx) (full : Sig N V T) (o : Opts) (ret : Option T)
+    (body : Binding N V → V) (args : List V) (kw : List (N × V)) (eager : Bool) :
+    (coroCall eager W c full o ret body args kw).result = callR W c full o ret body args kw ∧
+    (coroCall false W c full o ret body args kw ≠ .raisedAtCall) ∧
+    (coroCall true W c full o ret body args kw = .raisedAtCall ↔ (getParams W c full o args kw).isOk = false) := by
+  unfold coroCall callR callDecl
+  cases hg : getParams W c full o args kw with
+  | error e =>
+    refine ⟨?_, ?_, ?_⟩
+    · cases eager <;> simp [CoroRet.result, finish]
+    · simp
+    · simp [Except.isOk, Except.toBool]
+  | ok ak =>
+    refine ⟨?_, ?_, ?_⟩
+    · simp [CoroRet.result]
+    · simp
+    · simp [Except.isOk, Except.toBool]
 
 /-! ### every way a `Param` can be attached -/
 
@@ -817,6 +989,10 @@ def effAdditionUserLast (s : Sig N V T) (o : Opts) : Addition T :=
     | some (_, t) => .allow t
     | none => .drop
 
+/-- non-vacuity of `C08_method_binding` / `C08_method_result`: `def m(cls, a: T = 3)` as a classmethod object, called
+`m(77, a=2)`; and `self` by keyword on a method of a class decorated as a whole -/
+def sM : Sig Nat Nat Nat := { pos := [{ name := 900 }, { name := 3, ann := some 0, dflt := some 3 }] }
+
 /-! ### witnesses: the full statement is false of the code, the hypotheses are satisfiable -/
 
 /-- a concrete world: names, values and types are numbers; names ≥ 1000 are private; `lower` folds 500-999 onto
@@ -826,6 +1002,7 @@ def W₁ : World Nat Nat Nat where
   priv := fun n => decide (1000 ≤ n)
   lower := fun n => if 500 ≤ n ∧ n < 1000 then n - 500 else n
   noneV := 0
+  isInst := fun v => decide (70 ≤ v)
 
 theorem W₁_lowerIdem : LowerIdem W₁ := by
   intro n
@@ -952,5 +1129,33 @@ theorem C08_options_witness :
     (match effAdditionUserLast sDemo { addition := some true } with | .allow none => true | _ => false) = true ∧
     (match effAddition sDemo { noDataLoss := true } with | .allow (some 0) => true | _ => false) = true := by
   decide
+
+/-! ### non-vacuity of the class-context theorems -/
+
+def sMtail : Sig Nat Nat Nat := { sM with pos := [{ name := 3, ann := some 0, dflt := some 3 }] }
+
+theorem sMtail_wf : WF W₁ sMtail := ⟨by decide, by decide, by decide, by decide, by decide, by decide⟩
+
+/-- `C08_method_binding` applied: `m(77, a=2)` on a classmethod object -/
+example : callDecl W₁ { isClassm := true } sM {} [77] [(3, 2)] = consFirst 77 (.body ⟨[102], [], [], []⟩) :=
+  C08_method_binding W₁ W₁_lowerIdem { isClassm := true } sM { name := 900 } _ {} 77 [] [(3, 2)] _
+    (by decide) rfl (by decide) sMtail_wf (by decide) (by decide) (by decide) (by decide) (by decide)
+
+/-- `C08_method_binding_self_kw` applied: a method of a class decorated as a whole, `self` passed by keyword -/
+example : callDecl W₁ { fromClass := true } sM {} [] [(900, 77), (3, 2)]
+    = consFirst 77 (.body ⟨[102], [], [], []⟩) :=
+  C08_method_binding_self_kw W₁ W₁_lowerIdem { fromClass := true } sM { name := 900 } _ {} 77 [(900, 77), (3, 2)] _
+    (by decide) rfl (by decide) (by decide) sMtail_wf (by decide) (by decide) (by decide) (by decide)
+
+/-- … and a first argument that is not an instance (5) is refused before the body; the result of a method call and of
+the coroutine variants, computed -/
+example :
+    callDecl W₁ { fromClass := true } sM {} [5] [(3, 2)] = .perr ∧
+    callR W₁ { isClassm := true } sM {} (some 0) (fun b => b.pos.length) [77] [(3, 2)]
+      = .returned ⟨[77, 102], [], [], []⟩ 102 ∧
+    coroCall true W₁ { isClassm := true } sM {} (some 0) (fun _ => 60) [77] [(3, 2)]
+      = .awaited (.resultErr ⟨[77, 102], [], [], []⟩) ∧
+    coroCall true W₁ { isClassm := true } sM {} (some 0) (fun _ => 1) [77] [(3, 70)] = .raisedAtCall ∧
+    coroCall false W₁ { isClassm := true } sM {} (some 0) (fun _ => 1) [77] [(3, 70)] = .awaited .perr := by decide
 
 end Utv.C08
